@@ -1,6 +1,8 @@
 package cctfe
 
 import (
+	"crypto/sha256"
+	"encoding/binary"
 	"encoding/json"
 	"fmt"
 	"net/url"
@@ -16,6 +18,7 @@ import (
 	"google.golang.org/protobuf/proto"
 
 	"verifharness/ctfeenv"
+	"verifharness/ref"
 	"verifharness/vh"
 )
 
@@ -28,12 +31,103 @@ type FaultCase struct {
 			Kind  string `json:"kind"`
 			Code  int    `json:"code"`
 			Class string `json:"class"`
+			Echo  *Echo  `json:"echo"`
 		} `json:"fault"`
 		Pos   int    `json:"pos"`
 		Mask  bool   `json:"mask"`
 		Class string `json:"class"`
 	} `json:"c"`
 	Expect string `json:"expect"`
+}
+
+// Echo mirrors an element of CTFEFaults!Echoes: the leaf QueueLeaf echoes, field by field.
+type Echo struct {
+	Version   int    `json:"version"`
+	LeafType  int    `json:"leafType"`
+	EntryType int    `json:"entryType"`
+	Len       string `json:"len"`
+	Ext       string `json:"ext"`
+	Body      string `json:"body"`
+}
+
+// Deviations names the ways in which the description is not a v1 MerkleTreeLeaf (the stable part of a fingerprint:
+// which honest values surround the deviation does not matter to it).
+func (e *Echo) Deviations() string {
+	var d []string
+	if e.Version != 0 {
+		d = append(d, "version-not-v1")
+	}
+	if e.LeafType != 0 {
+		d = append(d, "unknown-leaf-type")
+		if e.Body == "absent" {
+			d = append(d, "nothing-after-leaf-type")
+		}
+	}
+	switch e.EntryType {
+	case 0, 1:
+	case 32768:
+		d = append(d, "json-entry-type")
+	default:
+		d = append(d, "unknown-entry-type")
+	}
+	if e.Len == "zero" {
+		switch e.EntryType {
+		case 0:
+			d = append(d, "zero-length-certificate")
+		case 1:
+			d = append(d, "zero-length-tbs")
+		default:
+			d = append(d, "zero-length-entry")
+		}
+	}
+	return strings.Join(d, "+")
+}
+
+func (e *Echo) String() string {
+	return fmt.Sprintf("version=%d,leaf_type=%d,entry_type=%d,len=%s,ext=%s,body=%s", e.Version, e.LeafType, e.EntryType, e.Len, e.Ext, e.Body)
+}
+
+// echoLeaf writes the MerkleTreeLeaf a description stands for with the RFC 5246 primitives of harness/ref: every
+// length prefix is honoured and nothing follows the last field.  Timestamp and the octets of the certificate /
+// TBSCertificate vector (for len = own) are those of the honest leaf the backend would have echoed; a precert arm
+// under an honest x509 leaf takes the SHA-256 of those octets as its issuer_key_hash.
+func echoLeaf(e *Echo, honest []byte) ([]byte, error) {
+	if len(honest) < 15 || honest[0] != 0 || honest[1] != 0 {
+		return nil, fmt.Errorf("honest echoed leaf is not a v1 timestamped entry")
+	}
+	ts, htype, rest := honest[2:10], binary.BigEndian.Uint16(honest[10:12]), honest[12:]
+	var ikh []byte
+	if htype == 1 {
+		if len(rest) < 35 {
+			return nil, fmt.Errorf("honest precert leaf too short")
+		}
+		ikh, rest = rest[:32], rest[32:]
+	}
+	n := int(rest[0])<<16 | int(rest[1])<<8 | int(rest[2])
+	if htype > 1 || n == 0 || len(rest) != 3+n+2 {
+		return nil, fmt.Errorf("honest echoed leaf has an unexpected layout")
+	}
+	body := rest[3 : 3+n]
+	if ikh == nil {
+		h := sha256.Sum256(body)
+		ikh = h[:]
+	}
+	out := ref.Cat(ref.U(uint64(e.Version), 1), ref.U(uint64(e.LeafType), 1))
+	if e.Body == "absent" {
+		return out, nil
+	}
+	if e.Len == "zero" {
+		body = nil
+	}
+	var ext []byte
+	if e.Ext == "some" {
+		ext = []byte{0xca, 0xfe, 0x01}
+	}
+	out = ref.Cat(out, ts, ref.U(uint64(e.EntryType), 2))
+	if e.EntryType == 1 {
+		out = ref.Cat(out, ikh)
+	}
+	return ref.Cat(out, ref.Vec(body, 3), ref.Vec(ext, 2)), nil
 }
 
 func garbleRoot(size uint64, hashLen int) *trillian.SignedLogRoot {
@@ -61,6 +155,14 @@ func inject(fc *FaultCase, rsp proto.Message) (proto.Message, error) {
 			r.QueuedLeaf.Leaf.LeafValue = append(r.QueuedLeaf.Leaf.LeafValue, 0)
 		case "echoedLeafEmpty":
 			r.QueuedLeaf.Leaf.LeafValue = nil
+		case "echoedLeafFields":
+			lv, err := echoLeaf(f.Echo, r.QueuedLeaf.Leaf.LeafValue)
+			if err != nil {
+				panic("harness: " + err.Error())
+			}
+			r.QueuedLeaf.Leaf.LeafValue = lv
+		default:
+			panic("harness: unknown malformed QueueLeaf class " + f.Class)
 		}
 	case *trillian.GetLatestSignedLogRootResponse:
 		switch f.Class {
@@ -380,6 +482,11 @@ func TestFaults(t *testing.T) {
 		if c.Fault.Kind == "code" {
 			fname = codes.Code(c.Fault.Code).String()
 		}
+		fdesc := fname
+		if c.Fault.Echo != nil {
+			fname += "(" + c.Fault.Echo.Deviations() + ")"
+			fdesc += "(" + c.Fault.Echo.String() + ")"
+		}
 		fp := fmt.Sprintf("fault:%s:%s", c.Ep, fname)
 		seen := 0
 		be.Intercept = func(seq int, method string, req, rsp proto.Message, err error) (proto.Message, error) {
@@ -397,7 +504,7 @@ func TestFaults(t *testing.T) {
 				rl = env.ReqLog.Recs[nrec]
 			}
 			if err != nil {
-				rep.Violate(fp+":panic", fmt.Sprintf("%s with backend fault %s: %v", c.Ep, fname, err), fc)
+				rep.Violate(fp+":panic", fmt.Sprintf("%s with backend fault %s: %v", c.Ep, fdesc, err), fc)
 				continue
 			}
 			if k != c.Pos {
@@ -406,8 +513,17 @@ func TestFaults(t *testing.T) {
 				}
 				continue
 			}
-			if !inClass(code, fc.Expect) {
-				rep.Violate(fp+fmt.Sprintf(":want=%s:got=%d", fc.Expect, code), fmt.Sprintf("%s with backend fault %s: status %d, the property demands %s: %s", c.Ep, fname, code, fc.Expect, strings.TrimSpace(string(body))), fc)
+			if fc.Expect == "unasserted" {
+				// a named clause of the specification: the status is recorded, not judged; what holds for every outcome is
+				rep.Add(fmt.Sprintf("unasserted %s %s -> %d", c.Ep, fname, code), 1)
+				if code == 200 {
+					if rl != nil && (len(rl.Statuses) != 1 || rl.Statuses[0] != code) {
+						rep.Violate(fp+":requestlog-status", fmt.Sprintf("RequestLog.Status %v for HTTP %d", rl.Statuses, code), fc)
+					}
+					continue
+				}
+			} else if !inClass(code, fc.Expect) {
+				rep.Violate(fp+fmt.Sprintf(":want=%s:got=%d", fc.Expect, code), fmt.Sprintf("%s with backend fault %s: status %d, the property demands %s: %s", c.Ep, fdesc, code, fc.Expect, strings.TrimSpace(string(body))), fc)
 			}
 			if rl != nil {
 				if len(rl.SCTs) > 0 {
@@ -431,7 +547,7 @@ func TestFaults(t *testing.T) {
 			}
 		}
 		be.Intercept = nil
-		rep.Eval(fp + ":" + fc.Expect)
+		rep.Eval(fmt.Sprintf("fault:%s:%s:%s", c.Ep, fdesc, fc.Expect))
 		if len(rep.Samples) < 3 && c.Fault.Kind == "malformed" {
 			rep.Sample(fc)
 		}
